@@ -61,7 +61,7 @@ def case_st(draw, allow_fbmc=False):
     scn["table"][0][0] = 1
     scn["calc"] = "fast"
     # entry names in a generated (generally non-alphabetical) order: the table order is part of the state
-    scn["names"] = draw(st.permutations(["zeta", "alpha", "mid", "beta"]).map(lambda p: list(p)[: len(scn["entries"])]))
+    scn["names"] = list(draw(st.permutations(["zeta", "alpha", "mid", "beta"])))
     scn.pop("alias_of", None)
     return {"scn": scn, "n": draw(st.integers(4, 9))}
 
